@@ -585,7 +585,10 @@ pub fn scenario(g: &GenCfg) -> BoxedStrategy<Scenario> {
                         let last = eoas.len() - 1;
                         eoas[last].delegate = None;
                         if g.near_max_benef {
-                            eoas[last].balance = Bal::NearMax(1000);
+                            // gaps around the size of one or two fee rewards (21 000 - 150 000 gas units
+                            // times a price of 1-3): some credits fit, some overflow, and the order matters
+                            let gap = [1000u64, 30_000, 70_000, 150_000, 400_000][(txs.len() * 7 + eoas.len() + contracts.len() * 3) % 5];
+                            eoas[last].balance = Bal::NearMax(gap);
                         }
                     }
                     // pre-London: no base fee
